@@ -37,6 +37,7 @@ MIRRORS = [("python/eups/VersionCompare.py", "*"), ("python/eups/hooks.py", "*")
            ("python/eups/Eups.py", "Eups._findLatestProduct"), ("python/eups/Eups.py", "Eups._selectPreferredProduct"),
            ("python/eups/Eups.py", "Eups._findProductsByExpr"), ("python/eups/Eups.py", "Eups._findPreferredProductByExpr"),
            ("python/eups/Eups.py", "Eups.findTaggedProduct"), ("python/eups/Eups.py", "Eups._findTaggedProduct"),
+           ("python/eups/Eups.py", "Eups.findProducts"), ("python/eups/Eups.py", "_TagSet"), ("python/eups/utils.py", "uniq"),
            ("python/eups/db/Database.py", "_Database.findProducts"), ("python/eups/db/Database.py", "_cmp_by_verflav"),
            ("python/eups/stack/ProductStack.py", "ProductStack.getVersions"), ("python/eups/stack/ProductFamily.py", "ProductFamily.getVersions")]
 
